@@ -1056,6 +1056,7 @@ func (c *ctx) typeKeyed() {
 // Rules is the G-rule catalogue.
 var Rules = []report.Rule{
 	{ID: "G27", Floor: 3, Props: []string{"C14"}, Text: "the sentinel types of output-less tasks and of predicates are keys of the same structural type map as user types: the two families differ in their field type, and each member is named after the family's counter, incremented unconditionally first"},
+	{ID: "G31", Floor: 5, Props: []string{"C13"}, Text: "every package name the base-mode generator hands to the templates (the import function, the type qualifier) is looked up in the scope of the directive first, and the recorded errors are returned before the output is written"},
 	{ID: "G30", Floor: 2, Props: []string{"C13"}, Text: "after compiling a Flow/Parallel directive the file walker either descends into it or scans its arguments for nested directives and reports them: no directive call is left unprocessed silently"},
 	{ID: "G28", Floor: 2, Props: []string{"C14"}, Text: "memo / visited-set keys of the validators' graph searches are total over the nodes: the key is the node (or its structural type) itself, or a field that every constructor of the node sets"},
 	{ID: "G29", Floor: 4, Props: []string{"C14", "C13"}, Text: "every structural classification of a user-supplied go/types.Type (slice, map, function, pointer) is made on its underlying type, so named types of that kind are accepted like unnamed ones"},
@@ -1116,6 +1117,7 @@ func Run(repo *load.Repo, s *report.Sink) error {
 	c.sentinelFamilies()
 	c.memoKeys()
 	c.walkerCompleteness()
+	c.packageVisibility()
 	c.structuralAssertions()
 	return nil
 }
